@@ -8,7 +8,7 @@ from checks import cpu, execgen, c06
 def run(ctx):
     ctx.rule = ("(1) scratch registers: every prefix x opcode x mode-byte structure executed twice from the same architectural state, once with TEMP0-13 random and once with TEMP0-13 = 0, on the Python emulator and on the Rust core: "
                 "architectural results (PC, BA, I, X, Y, U, S, F, low-power flag, written memory) must be identical; (2) histories: generated programs run N+M steps in one emulator vs N steps, architectural registers + memory carried into a fresh "
-                "emulator/LlamaState (call bookkeeping, scratch registers, decoder caches dropped), then M steps, on both cores; (3) repeatability: the same cases re-run later in the same harness process (after thousands of other emulator instances) give identical answers; "
+                "emulator/LlamaState (call bookkeeping, scratch registers, decoder caches dropped), then M steps, on both cores - including self-modifying programs whose store rewrites an operand byte a few bytes ahead; (3) repeatability: the same cases re-run later in the same harness process (after thousands of other emulator instances) give identical answers; "
                 "(4) every lifted IL of the sweep passes the in-model definite-assignment check of the scratch registers (Model/TempSafe.v, proved sound in Coq); non-trivial = executable valid encoding; distinct by bytes+state")
     ctx.trusted += ["correspondence harness: exec_cmd.py / exec_cmd.rs (exec1 with TEMP registers set through Registers.set / LlamaState::set_reg; exec_split), extracted model_driver (exec_py, tsafe)",
                     "modelled not verified: the Python core as for C04; Rust call bookkeeping (call_page_stack, call_depth), PERF_* statics, cached decoder: not modelled, covered by the split-run and repeat comparisons on the implementation"]
@@ -97,11 +97,31 @@ def run(ctx):
                 mem[tgts[d] + i] = bb
             nsteps += len(prog)
         extra.append(((code, 0x100, regs, mem, 0), min(nsteps, 14)))
+    # self-modifying code: a store rewrites the operand byte of an instruction a few bytes ahead, which then executes.  What
+    # that instruction does is a function of the memory contents at the time it runs, not of what was fetched earlier.
+    selfmod = []
+    for _ in range(600 if ctx.tier == "thorough" else 120):
+        regs = execgen.rand_regs(rng)
+        mem = execgen.rand_mem(rng)
+        v = rng.randrange(256)
+        g0, g1 = rng.randint(0, 2), rng.randint(0, 3)
+        tgt = rng.choice(["0911", "0822", "4005", "6405", "0a2211"])      # MV IL,n / MV A,n / ADD A,n / CMP A,n / MV BA,mn
+        store_at = 2 + g0
+        tgt_at = store_at + 4 + g1
+        cell = 0x100 + tgt_at + rng.randint(1, len(tgt) // 2 - 1)
+        code = "08%02x" % v + "00" * g0 + "a8" + cell.to_bytes(3, "little").hex() + "00" * g1 + tgt + "0000"
+        n = 1 + g0 + 1 + g1 + 1 + 1
+        # split either right after the store (the continuation starts in a core that never saw the old bytes) or anywhere
+        k = (1 + g0 + 1) if rng.random() < 0.6 else rng.randint(1, n - 1)
+        selfmod.append(((code, 0x100, regs, mem, 0), n, k))
     allp = progs + extra
     plines = []
     for case, n in allp:
         k = rng.randint(1, max(1, n - 1))
         plines.append(execgen.fmt(case) + f" {k} {n - k}")
+    for case, n, k in selfmod:
+        plines.append(execgen.fmt(case) + f" {k} {n - k}")
+    ctx.count("self_modifying_cases", len(selfmod))
     so = corr.run_streams(ctx, plines, {"py": ("py", "exec_split"), "rs": ("rs", "exec_split")})
     for l, p, r in zip(plines, so["py"], so["rs"]):
         for core, ans in (("py", p), ("rs", r)):
